@@ -9,7 +9,8 @@
 (*                 (=> at most N concurrent leases; a lease is returned at most once - a second return would duplicate)   *)
 (*   Conserved     while the pool is open every client is either available or held (returned at least once: nothing is   *)
 (*                 lost); after close() a returned client is dropped, never re-queued                                     *)
-(*   ClosedRefuses an acquisition that BEGAN after close() had returned never succeeds                                   *)
+(*   ClosedRefuses an acquisition that BEGAN after close() had returned never succeeds, and a client given back after    *)
+(*                 close() had returned is never handed out again (close() wakes the blocked acquirers: they fail)        *)
 (*   FailOnly...   tryGet fails only when nothing is available (or closed); get() fails only when closed                  *)
 (*   NoStuck       every blocked get()/get(timeout) is woken by a return or by close(): when nothing can move every        *)
 (*                 thread has finished (programs release whatever they acquire)                                           *)
@@ -29,11 +30,12 @@ CONSTANTS N,                 \* pool size; clients are 1..N
           Dev_ReturnKeepsLease,  \* returnToPool does not invalidate the lease: the client can be returned twice
           Dev_NoNotifyOnReturn,  \* a return does not notify the not-empty condition
           Dev_CloseNoWake,       \* close() sets the flags but does not notify_all
-          Dev_NoClosedCheck      \* acquisition does not look at the pool's closed flag
+          Dev_NoClosedCheck,     \* acquisition does not look at the pool's closed flag
+          Dev_CloseKeepsQueueOpen \* close() only sets the pool's flag: the queue stays open, nobody is woken
 
 VARIABLES q, qclosed, pclosed, pc, ip, held, parked, tokens, notified,
-          dropped, closeDone, late, lateOk, lastRet
-vars == <<q, qclosed, pclosed, pc, ip, held, parked, tokens, notified, dropped, closeDone, late, lateOk, lastRet>>
+          dropped, closeDone, late, lateOk, stale, lastRet
+vars == <<q, qclosed, pclosed, pc, ip, held, parked, tokens, notified, dropped, closeDone, late, lateOk, stale, lastRet>>
 
 Clients == 1..N
 Op(t) == Prog[t][ip[t]]
@@ -44,6 +46,7 @@ Init == /\ q = [i \in 1..N |-> i] /\ qclosed = FALSE /\ pclosed = FALSE
         /\ held = [t \in Threads |-> <<>>]
         /\ parked = {} /\ tokens = <<>> /\ notified = {}
         /\ dropped = {} /\ closeDone = FALSE /\ late = [t \in Threads |-> FALSE] /\ lateOk = FALSE
+        /\ stale = {}      \* clients given back after close() had returned: they must never be handed out again
         /\ lastRet = [t |-> "-", op |-> "-", ok |-> TRUE]   \* the call that returned in the step just taken
 
 Return(t, ok) == /\ ip' = [ip EXCEPT ![t] = @ + 1] /\ pc' = [pc EXCEPT ![t] = "idle"]
@@ -66,23 +69,24 @@ Begin(t) ==
               /\ IF pclosed /\ ~Dev_NoClosedCheck
                  THEN Return(t, FALSE)
                  ELSE pc' = [pc EXCEPT ![t] = "deq"] /\ NoRet
-              /\ UNCHANGED pclosed
+              /\ UNCHANGED <<pclosed, closeDone>>
          [] o = "rel" ->
               /\ IF held[t] = <<>> THEN Return(t, TRUE) ELSE pc' = [pc EXCEPT ![t] = "ret"] /\ NoRet
-              /\ UNCHANGED <<late, pclosed>>
+              /\ UNCHANGED <<late, pclosed, closeDone>>
          [] o = "mv" ->
               /\ IF Len(held[t]) < 2 THEN Return(t, TRUE) ELSE pc' = [pc EXCEPT ![t] = "ret"] /\ NoRet
-              /\ UNCHANGED <<late, pclosed>>
+              /\ UNCHANGED <<late, pclosed, closeDone>>
          [] o = "close" ->
-              /\ IF pclosed THEN Return(t, TRUE) /\ UNCHANGED pclosed
-                            ELSE pclosed' = TRUE /\ pc' = [pc EXCEPT ![t] = "qclose"] /\ NoRet
+              /\ IF pclosed THEN Return(t, TRUE) /\ UNCHANGED <<pclosed, closeDone>>
+                 ELSE IF Dev_CloseKeepsQueueOpen THEN pclosed' = TRUE /\ closeDone' = TRUE /\ Return(t, TRUE)
+                 ELSE pclosed' = TRUE /\ pc' = [pc EXCEPT ![t] = "qclose"] /\ NoRet /\ UNCHANGED closeDone
               /\ UNCHANGED late
-    /\ UNCHANGED <<q, qclosed, held, parked, tokens, notified, dropped, closeDone, lateOk>>
+    /\ UNCHANGED <<q, qclosed, held, parked, tokens, notified, dropped, lateOk, stale>>
 
 \* ---- what runs with the queue mutex held inside dequeue / dequeue(timeout) / tryDequeue
 \* timedOut: wait_for ended by its deadline - the predicate's value decides, no further wait
 Take(t) == /\ held' = [held EXCEPT ![t] = Append(@, Head(q))] /\ q' = Tail(q)
-           /\ lateOk' = (lateOk \/ late[t])
+           /\ lateOk' = (lateOk \/ late[t] \/ Head(q) \in stale)
            /\ Return(t, TRUE)
 AfterAcquire(t, timedOut) ==
     IF q # <<>> THEN Take(t) /\ UNCHANGED parked
@@ -93,7 +97,7 @@ AfterAcquire(t, timedOut) ==
 
 Deq(t) == /\ pc[t] = "deq"
           /\ AfterAcquire(t, FALSE)
-          /\ UNCHANGED <<qclosed, pclosed, tokens, notified, dropped, closeDone, late>>
+          /\ UNCHANGED <<qclosed, pclosed, tokens, notified, dropped, closeDone, late, stale>>
 
 Wake(t) == /\ pc[t] = "parked" /\ (t \in notified \/ HasTok(t))
            /\ IF t \in notified THEN notified' = notified \ {t} /\ tokens' = Drop(t, tokens)
@@ -101,12 +105,12 @@ Wake(t) == /\ pc[t] = "parked" /\ (t \in notified \/ HasTok(t))
            /\ IF q # <<>> THEN Take(t) /\ parked' = parked \ {t}
               ELSE IF qclosed THEN Return(t, FALSE) /\ parked' = parked \ {t} /\ UNCHANGED <<q, held, lateOk>>
               ELSE UNCHANGED <<q, held, lateOk, parked, pc>> /\ NoRet          \* predicate false: parks again
-           /\ UNCHANGED <<qclosed, pclosed, dropped, closeDone, late>>
+           /\ UNCHANGED <<qclosed, pclosed, dropped, closeDone, late, stale>>
 
 Timeout(t) == /\ pc[t] = "parked" /\ Op(t) = "getT"
               /\ notified' = notified \ {t} /\ tokens' = Drop(t, tokens) /\ parked' = parked \ {t}
               /\ IF q # <<>> THEN Take(t) ELSE Return(t, FALSE) /\ UNCHANGED <<q, held, lateOk>>
-              /\ UNCHANGED <<qclosed, pclosed, dropped, closeDone, late>>
+              /\ UNCHANGED <<qclosed, pclosed, dropped, closeDone, late, stale>>
 
 \* ---- a lease gives its client back: rel = destructor of the oldest lease; mv = oldest = std::move(newest)
 Ret(t) ==
@@ -115,6 +119,7 @@ Ret(t) ==
            rest == IF Op(t) = "mv" THEN <<held[t][Len(held[t])]>> \o SubSeq(held[t], 2, Len(held[t]) - 1)
                    ELSE IF Dev_ReturnKeepsLease THEN Append(Tail(held[t]), c) ELSE Tail(held[t])
        IN /\ held' = [held EXCEPT ![t] = rest]
+          /\ stale' = IF closeDone THEN stale \cup {c} ELSE stale
           /\ IF qclosed \/ Len(q) >= N
              THEN /\ dropped' = dropped \cup {c} /\ Return(t, TRUE) /\ UNCHANGED q
              ELSE /\ q' = Append(q, c) /\ pc' = [pc EXCEPT ![t] = "notify"] /\ UNCHANGED dropped /\ NoRet
@@ -124,15 +129,15 @@ Notify(t) == /\ pc[t] = "notify"
              /\ LET el == parked \ notified IN
                 tokens' = IF el = {} \/ Dev_NoNotifyOnReturn THEN tokens ELSE Append(tokens, el)
              /\ Return(t, TRUE)
-             /\ UNCHANGED <<q, qclosed, pclosed, held, parked, notified, dropped, closeDone, late, lateOk>>
+             /\ UNCHANGED <<q, qclosed, pclosed, held, parked, notified, dropped, closeDone, late, lateOk, stale>>
 
 \* ---- close(): pool flag (in Begin), then the queue's close critical section, then notify_all
 QClose(t) == /\ pc[t] = "qclose" /\ qclosed' = TRUE /\ pc' = [pc EXCEPT ![t] = "bcast"]
-             /\ NoRet /\ UNCHANGED <<q, pclosed, held, parked, tokens, notified, dropped, closeDone, late, lateOk>>
+             /\ NoRet /\ UNCHANGED <<q, pclosed, held, parked, tokens, notified, dropped, closeDone, late, lateOk, stale>>
 Bcast(t) == /\ pc[t] = "bcast"
             /\ notified' = IF Dev_CloseNoWake THEN notified ELSE notified \cup parked
             /\ closeDone' = TRUE /\ Return(t, TRUE)
-            /\ UNCHANGED <<q, qclosed, pclosed, held, parked, tokens, dropped, late, lateOk>>
+            /\ UNCHANGED <<q, qclosed, pclosed, held, parked, tokens, dropped, late, lateOk, stale>>
 
 Next == \E t \in Threads : Begin(t) \/ Deq(t) \/ Wake(t) \/ Timeout(t) \/ Ret(t) \/ Notify(t) \/ QClose(t) \/ Bcast(t)
 Spec == Init /\ [][Next]_vars
